@@ -4,6 +4,9 @@ import (
 	"strconv"
 
 	"github.com/oxia-db/oxia/proto"
+	"github.com/oxia-db/oxia/server/kv"
+
+	"verif/lib/oxh"
 )
 
 func parseASCIIEntry(value []byte) (int64, bool) {
@@ -14,3 +17,8 @@ func parseASCIIEntry(value []byte) (int64, bool) {
 	v, err := strconv.ParseInt(string(se.Value), 10, 64)
 	return v, err == nil
 }
+
+func oxhMemFactory() kv.Factory { return oxh.NewMemFactory() }
+
+// dumpDB renders the log-derived content of a database (term records are not log-derived).
+func dumpDB(d kv.DB) []string { return oxh.DumpDB(d, oxh.DumpOpts{SkipTerm: true}) }
